@@ -103,7 +103,23 @@ func runC06(c *Ctx) {
 			c.Sample(map[string]interface{}{"files": sw.FileMap()})
 		}
 	})
-	c.Finish("generated 2-4 file workspaces as in C05; textDocument/references (declaration included) from every variable-name occurrence is "+
+	// wide lane: many small files, so that the all-files search for a global hands out more files than its worker pool has workers
+	nWide := c.N(12, 300)
+	parallel(nWide, 6, func(i int) {
+		r := root.Fork(uint64(1000000 + i))
+		files := c06WideFiles(r)
+		sw, ok := ScopeWSFromFiles(files)
+		if !ok {
+			c.Inconclusive("harness inconsistency: wide workspace not valid for the reference front end")
+			return
+		}
+		c.Eval(1)
+		c.Count("wide_workspaces", 1)
+		c.Count("wide_workspace_files", int64(len(files)))
+		checkC06WS(c, sw, fmt.Sprintf("c06wide%d", i))
+	})
+	c.Finish("generated 2-4 file workspaces as in C05, plus wide workspaces of 24-90 small files whose globals are used across many files (more files than the references "+
+		"worker pool has workers); answers must not list a location twice; textDocument/references (declaration included) from every variable-name occurrence is "+
 		"compared as a set of (file, range) with the reference binder's occurrence class of that binding (locals: declaration+reads+writes; "+
 		"globals: every unshadowed occurrence in every file). distinct_nontrivial = distinct (file text, occurrence) queried with a definite expectation", 300)
 }
@@ -156,6 +172,9 @@ func checkC06WS(c *Ctx, sw *ScopeWS, tag string) {
 			}
 			exp := expectedRefs(ws, sw, f, o)
 			got := locSet(locs)
+			if len(got) != len(locs) {
+				c.Report("duplicate-location|"+cls, fmt.Sprintf("references of %s at %s:%v lists a location more than once: %s", name, f.Rel, p, fmtLocs(ws, locs)), witness(nil))
+			}
 			c.Distinct(f.Text + fmt.Sprint(o.Tok.Off))
 			if o.Decl != nil {
 				c.Count("local_bindings_checked", 1)
@@ -259,4 +278,29 @@ func refsSignature(ws *Workspace, sw *ScopeWS, f *SFile, o *Occ, missing, extra 
 		}
 	}
 	return fmt.Sprintf("refs-mismatch|%s|query:%s|diff:%s", bk, qcls, strings.Join(rest, ","))
+}
+
+// c06WideFiles builds a workspace of many small files: every file defines one global and one global function and uses
+// several globals of other files, on lines of their own.
+func c06WideFiles(r *Rng) map[string]string {
+	n := r.Range(24, 90)
+	files := map[string]string{}
+	for i := 0; i < n; i++ {
+		var sb strings.Builder
+		fmt.Fprintf(&sb, "GWide%d = %d\n", i, i)
+		fmt.Fprintf(&sb, "function GWideFn%d(a, b)\n  local t = a\n", i)
+		for k := 0; k < r.Range(1, 4); k++ {
+			fmt.Fprintf(&sb, "  t = t + GWide%d\n", r.Intn(n))
+		}
+		fmt.Fprintf(&sb, "  return t + b\nend\n")
+		for k := 0; k < r.Range(1, 3); k++ {
+			fmt.Fprintf(&sb, "print(GWideFn%d(GWide%d, GWideShared))\n", r.Intn(n), r.Intn(n))
+		}
+		if i == 0 {
+			sb.WriteString("GWideShared = 1\n")
+		}
+		dir := []string{"", "a/", "a/b/", "c/"}[r.Intn(4)]
+		files[fmt.Sprintf("%sw%02d.lua", dir, i)] = sb.String()
+	}
+	return files
 }
